@@ -37,8 +37,8 @@ PROPS = "PROPERTY C06_IdsUniqueNeverReused C06_NewGroupOwners"
 def base_consts():
     """Widest domains: used by the random-walk generator (arguments are drawn, not enumerated)."""
     return {
-        "Names": q("", "a", "b", "p", "q"), "DbN": q("", "a", "b"), "RpN": q("", "p", "q"), "ObjN": q("", "a", "b"),
-        "LongNames": q("L256"), "UpdNames": q("<none>", "", "p", "q", "L256"),
+        "Names": q("", "a", "b", "p", "q", "autogen"), "DbN": q("", "a", "b"), "RpN": q("", "p", "q", "autogen"),
+        "ObjN": q("", "a", "b"), "LongNames": q("L256"), "UpdNames": q("<none>", "", "p", "q", "L256"),
         "UpdDurs": [NONE, 0, 1, 2, 4, 96], "UpdRFs": [NONE, 0, 1, 2, 3, 4], "UpdSGDs": [NONE, 0, 1, 2, 3, 4, 5],
         "Ixs": [0], "InitKind": '"empty"', "SameAddr": False, "Addrs": q("h1", "h2", "h3"), "Times": list(range(0, 10)),
         "RFs": [0, 1, 2, 3, 4], "Durs": [0, 1, 2, 4, 96], "SGDs": [0, 1, 2, 3, 4, 5],
@@ -70,7 +70,7 @@ def gen_inputs(ctx, sd):
     import concurrent.futures
     n = ctx.pick(120, 1500)
     glen = ctx.pick(30, 40)
-    allp = q("empty", "n3rf1", "n3rf2", "n2rf2", "n3rf3", "trunc", "trunc0", "meta", "acct")
+    allp = q("empty", "n3rf1", "n3rf2", "n2rf2", "n3rf3", "trunc", "trunc0", "aged", "aged1", "meta", "acct")
     jobs = []   # (tag, autocreate, cfg name, constants, kwargs of tlc_generate, max behaviours)
     # (a) everything
     jobs.append(("all", True, "GenAll.cfg", dict(base_consts(), GenLen=glen, Sim=True, Gaps=[1, 2], Prefixes=allp),
@@ -82,7 +82,7 @@ def gen_inputs(ctx, sd):
     # (b) shard-group algebra on one database / two policies, few names so that most commands hit
     jobs.append(("groups", True, "GenGroups.cfg",
                  dict(base_consts(), GenLen=glen, Sim=True, Gaps=[1, 2, 3],
-                      Prefixes=q("n3rf1", "n3rf2", "n2rf2", "n3rf3", "trunc", "trunc0", "meta"),
+                      Prefixes=q("n3rf1", "n3rf2", "n2rf2", "n3rf3", "trunc", "trunc0", "aged", "aged1", "meta"),
                       DbN=q("a"), RpN=q("p", "q"), UpdNames=q("<none>"), UpdDurs=[NONE, 0], Times=list(range(0, 12)),
                       Cmds=q(*(GROUP_CMDS + ["UpdateRetentionPolicy", "UpdateDataNode", "CreateMetaNode", "DropRetentionPolicy",
                                              "CreateRetentionPolicy"]))),
@@ -94,7 +94,8 @@ def gen_inputs(ctx, sd):
                       ObjN=q("", "a"), Cmds=q(*ACCT_CMDS)),
                  dict(num=m, depth=glen + 1, seed=ctx.seed + 3000), m))
     # (d) exhaustive: every command sequence of length 2 over a reduced domain after each prefix
-    xpref = ctx.pick((("trunc0", 5), ("n2rf2", 4)), (("n3rf2", 6), ("trunc", 6), ("trunc0", 5), ("n2rf2", 4)))
+    xpref = ctx.pick((("trunc0", 5), ("n2rf2", 4), ("aged", 8)),
+                     (("n3rf2", 6), ("trunc", 6), ("trunc0", 5), ("n2rf2", 4), ("aged", 8), ("aged1", 8)))
     for pref, plen in xpref:
         d = 2
         jobs.append(("x-" + pref, True, "GenX-%s.cfg" % pref,
@@ -151,7 +152,8 @@ def run(ctx):
 
     # 1. exhaustive model checking, one configuration per family
     t0 = time.time()
-    mc(ctx, sd)
+    if not os.environ.get("C06_SKIP_MC"):      # development aid (mutation self-test): replay only
+        mc(ctx, sd)
     log("C06: model checking %.0fs" % (time.time() - t0))
     if os.environ.get("C06_MC_ONLY"):
         return ctx.finish("model_checking", {})
@@ -195,14 +197,19 @@ def mc_families(ctx):
     fam["Ranges"] = mc_consts(
         InitKind='"rp1n1"', DbN=q("a"), RpN=q("p"), SameAddr=True, MaxNodeId=1,
         Cmds=q("CreateShardGroup", "DeleteShardGroup", "TruncateShardGroups", "PruneShardGroups", "Age", "UpdateRetentionPolicy"),
-        UpdSGDs=[NONE, 3] if not t else [NONE, 3, 2], Times=list(range(0, 6)) if not t else list(range(0, 7)),
-        MaxGroupId=2 if not t else 3, MaxShardId=9)
+        UpdSGDs=[NONE, 3], Times=list(range(0, 6)), MaxGroupId=2 if not t else 3, MaxShardId=9)
     # owners: placement of new groups, shard drop, owner copy/removal, node removal with reassignment
     fam["Owners"] = mc_consts(
         InitKind='"rp2n3"', DbN=q("a"), RpN=q("p"), SameAddr=True, Addrs=q("h1", "h2", "h3"), MaxNodeId=3,
         Cmds=q("CreateShardGroup", "DeleteShardGroup", "DropShard", "CopyShardOwner", "RemoveShardOwner", "DeleteDataNode", "UpdateRetentionPolicy"),
         UpdRFs=[NONE, 3] if not t else [NONE, 1, 3], Times=[0, 4], Ixs=[0, 1] if not t else [0, 1, 2],
-        MaxGroupId=1 if not t else 2, MaxShardId=3 if not t else 5)
+        MaxGroupId=1, MaxShardId=3)
+    if t:
+        # two groups side by side: node removal and shard drop across groups (no manual owner edits)
+        fam["Owners2"] = mc_consts(
+            InitKind='"rp2n3"', DbN=q("a"), RpN=q("p"), SameAddr=True, Addrs=q("h1", "h2", "h3"), MaxNodeId=3,
+            Cmds=q("CreateShardGroup", "DeleteShardGroup", "DropShard", "DeleteDataNode", "UpdateRetentionPolicy"),
+            UpdRFs=[NONE, 1, 3], Times=[0, 4], Ixs=[0, 1, 2], MaxGroupId=2, MaxShardId=6)
     # nodes: data/meta node create/update/delete, shared ids, groups created on the resulting node lists
     fam["Nodes"] = mc_consts(
         InitKind='"rp2"', DbN=q("a"), RpN=q("p"), Addrs=q("h1", "h2"), SameAddr=False if t else True, Rands=[7] if not t else [7, 9],
